@@ -68,7 +68,15 @@ Degenerate8 == <<"CREATE TABLE v ()", "INSERT INTO v VALUES (), ()", "SELECT * F
                  "SELECT count(g) FROM t8 JOIN v ON 1 = 1", "SELECT s, avg(g) FROM t8 JOIN v ON 1 = 1 GROUP BY s", "SELECT g FROM t8 JOIN v ON 1 = 1 WHERE a = 1 ORDER BY g",
                  "SELECT count(*) FROM v", "UPDATE v SET a = 1", "DELETE FROM v", "INSERT INTO v VALUES ()", "SELECT * FROM v JOIN v w ON 1 = 1",
                  "INSERT INTO t8 VALUES", "INSERT INTO t8 (a, s) VALUES", "INSERT INTO t8 () VALUES", "INSERT INTO nosuch VALUES", "INSERT INTO v VALUES",
-                 "SELECT * FROM t8">>
+                 "SELECT * FROM t8",
+                 \* outer joins of tables of different widths with unmatched rows on either side (the NULL padding has the
+                 \* width of the OTHER table), every clause reaching for the last column
+                 "CREATE TABLE n1 (k INT)", "INSERT INTO n1 VALUES (1), (55)",
+                 "SELECT * FROM t8 RIGHT JOIN n1 ON t8.a = n1.k", "SELECT k, g FROM t8 RIGHT JOIN n1 ON t8.a = n1.k", "SELECT g, k FROM n1 RIGHT JOIN t8 ON n1.k = t8.a",
+                 "SELECT * FROM n1 LEFT JOIN t8 ON n1.k = t8.a", "SELECT g FROM n1 LEFT JOIN t8 ON n1.k = t8.a WHERE k = 55", "SELECT k FROM t8 LEFT JOIN n1 ON t8.a = n1.k ORDER BY k",
+                 "SELECT count(k), count(g) FROM t8 RIGHT JOIN n1 ON t8.a = n1.k", "SELECT k, count(g) FROM t8 RIGHT JOIN n1 ON t8.a = n1.k GROUP BY k",
+                 "SELECT k FROM t8 RIGHT JOIN n1 ON t8.a = n1.k WHERE g = 7 ORDER BY k DESC", "SELECT * FROM t8 RIGHT JOIN n1 ON t8.a = n1.k RIGHT JOIN t8 u ON u.a = n1.k",
+                 "SELECT u.g, n1.k FROM n1 LEFT JOIN t8 u ON u.a = n1.k LEFT JOIN n1 m ON m.k = u.g">>
 \* LIMIT / OFFSET values incl. the largest integer the parser accepts (code -2; TLC integers are 32 bit)
 LimOffs8 == LimOffs \cup {[limit |-> -2, offset |-> o] : o \in {-1, 0, 1, 5}} \cup {[limit |-> l, offset |-> -2] : l \in {-1, 1}}
 
